@@ -130,6 +130,13 @@ def make_case(rng, n, shape, targets=None, step=None, allow_inputs=True):
             step = rng.randint(d, n + 2)
     case = {"cells": cells, "elems": elems, "inputs": inputs, "precalc": [], "targets": list(targets),
             "step": step, "shape": shape}
+    if not inputs and rng.random() < 0.3:
+        case["second_round"] = True
+    if rng.random() < 0.08 and not inputs:
+        # (P)-only: one element fails; mostly one the targets need
+        dep = sorted(closure_up(preds, targets, set()))
+        case["raises"] = rng.choice(dep) if dep and rng.random() < 0.8 else rng.randrange(n)
+        return case
     if rng.random() < 0.35:
         # held None values: some elements sum to 0 and hold None (model.allow_none = True), read as 0 by their callers
         case["nones"] = True
@@ -208,6 +215,16 @@ def p_oracle(case, r):
     bad = []
     n = len(case["elems"])
     preds = {i: e["preds"] for i, e in enumerate(case["elems"])}
+    if case.get("raises") is not None:
+        # (P)-only class: one element fails (after calling its precedents).  When a target needs it, generate_actions
+        # raises and leaves the cache as it was; otherwise the case is an ordinary one
+        inp0 = {e for e, x in enumerate(r["before"]["elems"]) if x is not None and x[0] == "i"}
+        if case["raises"] in closure_up(preds, case["targets"], inp0):
+            if not str(r.get("err", "")).startswith("generate:"):
+                return ["a target needs the failing element %d, generate_actions did not raise: %r" % (case["raises"], r.get("err"))]
+            if r["after_gen"] != r["before"]:
+                return ["generate_actions failed and changed the cache: before=%r after=%r" % (r["before"]["elems"], r["after_gen"]["elems"])]
+            return []
     if r.get("err"):
         return ["implementation raised: %s" % r["err"]]
     before, aftergen, final = r["before"]["elems"], r["after_gen"]["elems"], r["final"]["elems"]
@@ -262,6 +279,10 @@ def p_oracle(case, r):
             bad.append("element %d unrelated to the targets changed: %r -> %r" % (e, before[e], final[e]))
         if final[e] is not None and final[e][0] == "c" and (e in dep or before[e] is None):
             bad.append("calculated value left behind at element %d" % e)
+    if r.get("round2") is not None:
+        r2 = dict(r["round2"], direct=r["direct"])
+        c2 = {k: v for k, v in case.items() if k != "second_round"}
+        bad += ["second round on the same model (target formulas assigned again): " + x for x in p_oracle(c2, r2)]
     return bad
 
 
@@ -345,7 +366,7 @@ def run(tier, seed, rng):
         if bad:
             out.p_failures.append({"case": c, "impl": r, "detail": "; ".join(bad[:6]), "script": script_for(c)})
     # ---- (T)
-    idx = [i for i, r in enumerate(res) if not r.get("err")]
+    idx = [i for i, r in enumerate(res) if not r.get("err") and cases[i].get("raises") is None]
     terms = [coq_term(cases[i], res[i]) for i in idx]
     vterms = [coq_vterm(cases[i], res[i]) for i in idx]
     from concurrent.futures import ThreadPoolExecutor
@@ -389,6 +410,8 @@ def run(tier, seed, rng):
     out.distribution = {"kinds": kinds, "blocks_per_plan": blocks, "implementation_errors": nerr,
                         "with_inputs": sum(1 for c in cases if c["inputs"]),
                         "with_held_None_values": sum(1 for c in cases if c.get("nones")),
+                        "with_a_failing_element_P_only": sum(1 for c in cases if c.get("raises") is not None),
+                        "with_a_second_round_on_the_same_model": sum(1 for c in cases if c.get("second_round")),
                         "sizes": {str(k): sum(1 for c in cases if len(c["elems"]) == k) for k in sorted({len(c["elems"]) for c in cases})},
                         "shapes": {s: sum(1 for c in cases if c.get("shape") == s) for s in SHAPES},
                         **stats}
